@@ -1,5 +1,5 @@
 """Fact base loader and MIR-event-CFG model for the dpa fact files."""
-import json, os, re, glob
+import json, re, os, re, glob
 
 GEN_RE = re.compile(r'::<[^<>]*(?:<[^<>]*(?:<[^<>]*(?:<[^<>]*>[^<>]*)*>[^<>]*)*>[^<>]*)*>')
 
@@ -333,10 +333,64 @@ class Body:
         return '\n'.join(out)
 
 
+# Types the rules name by path.  If a refactoring moves one of them into another (private) module of its crate, the facts
+# are re-keyed to the path below so that nothing in the rules depends on the module layout.
+WELL_KNOWN_ADTS = (
+    'deadpool_postgres::StatementCache', 'deadpool_postgres::StatementCaches', 'deadpool_postgres::StatementCacheKey', 'deadpool_postgres::ClientWrapper',
+    'deadpool_postgres::Manager', 'deadpool_postgres::Transaction', 'deadpool_postgres::TransactionBuilder', 'deadpool_postgres::config::RecyclingMethod',
+    'deadpool_postgres::config::Config', 'deadpool_postgres::config::ManagerConfig', 'deadpool_postgres::config::SslMode', 'deadpool_postgres::config::ChannelBinding',
+    'deadpool_postgres::config::TargetSessionAttrs', 'deadpool_postgres::config::LoadBalanceHosts', 'deadpool_postgres::config::ConfigError',
+    'deadpool_redis::Manager', 'deadpool_redis::Connection', 'deadpool_redis::config::Config', 'deadpool_redis::config::ConfigError', 'deadpool_redis::config::ConnectionInfo',
+    'deadpool_redis::config::ConnectionAddr', 'deadpool_redis::config::RedisConnectionInfo', 'deadpool_redis::config::ProtocolVersion',
+    'deadpool_redis::cluster::Manager', 'deadpool_redis::cluster::Connection', 'deadpool_redis::cluster::config::Config',
+    'deadpool_redis::sentinel::Manager', 'deadpool_redis::sentinel::Connection', 'deadpool_redis::sentinel::config::Config',
+    'deadpool_redis::sentinel::config::SentinelServerType', 'deadpool_redis::sentinel::config::SentinelNodeConnectionInfo', 'deadpool_redis::sentinel::config::TlsMode',
+    'deadpool_diesel::manager::Manager', 'deadpool_diesel::manager::RecyclingMethod', 'deadpool_diesel::manager::ManagerConfig', 'deadpool_diesel::error::Error',
+    'deadpool_sync::SyncWrapper', 'deadpool_sync::InteractError', 'deadpool_sqlite::Manager', 'deadpool_sqlite::config::Config', 'deadpool_r2d2::manager::Manager',
+    'deadpool_runtime::Runtime', 'deadpool_runtime::SpawnBlockingError',
+    'deadpool::managed::config::PoolConfig', 'deadpool::managed::config::Timeouts', 'deadpool::managed::config::QueueMode', 'deadpool::managed::errors::PoolError',
+    'deadpool::managed::errors::TimeoutType', 'deadpool::managed::errors::RecycleError', 'deadpool::managed::hooks::HookError', 'deadpool::managed::hooks::Hooks',
+    'deadpool::managed::hooks::HookVec', 'deadpool::managed::hooks::Hook', 'deadpool::managed::metrics::Metrics', 'deadpool::managed::builder::PoolBuilder',
+    'deadpool::managed::builder::BuildError', 'deadpool::unmanaged::config::PoolConfig', 'deadpool::unmanaged::errors::PoolError',
+)
+_IMPL_RE = re.compile(r'((?:[A-Za-z_][A-Za-z0-9_]*::)+)<impl ([A-Za-z_][A-Za-z0-9_:]*)(<[^<>]*(?:<[^<>]*>[^<>]*)*>)?>::')
+
+
+def _canonical_text(text, crate):
+    """(1) inherent impls written in another module than their type: `m::<impl T<..>>::f` -> `T::f`;
+    (2) well-known types that were moved to another module of the crate are renamed back to their well-known path"""
+    # (only impls of this crate's own types: `core::num::<impl usize>::saturating_sub` keeps its name)
+    text = _IMPL_RE.sub(lambda m: (m.group(2) + (('::' + m.group(3)) if m.group(3) else '') + '::') if m.group(2).startswith(crate + '::') else m.group(0), text)
+    paths = set(re.findall(r'"path":\s*"(' + re.escape(crate) + r'::[A-Za-z0-9_:]+)",\s*"kind":\s*"(?:Struct|Enum|Union)"', text))
+    for wk in WELL_KNOWN_ADTS:
+        if not wk.startswith(crate + '::') or wk in paths:
+            continue
+        last = wk.rsplit('::', 1)[1]
+        cands = [p for p in paths if p.rsplit('::', 1)[1] == last and p not in WELL_KNOWN_ADTS]
+        if len(cands) > 1:
+            # several types of that name (redis flavours): the one sharing the longest module prefix with the well-known path
+            def common(a, b):
+                n = 0
+                for x, y in zip(a.split('::'), b.split('::')):
+                    if x != y:
+                        break
+                    n += 1
+                return n
+            best = max(common(c, wk) for c in cands)
+            cands = [c for c in cands if common(c, wk) == best]
+        if len(cands) == 1:
+            text = re.sub(re.escape(cands[0]) + r'(?![A-Za-z0-9_])', wk, text)
+    return text
+
+
 class Crate:
     def __init__(self, path):
         with open(path) as f:
-            j = json.load(f)
+            raw = f.read()
+        m = re.search(r'"crate":\s*"([A-Za-z0-9_]+)"', raw[:2000])
+        if m:
+            raw = _canonical_text(raw, m.group(1))
+        j = json.loads(raw)
         self.file = path
         self.j = j
         self.name = j['crate']
